@@ -109,8 +109,20 @@ async fn reader_task(
         DltStreamReader::with_capacity(caps.0, caps.1, src, storage)
     };
     let mut plan = CallPlan::new_lim(&data, storage, caps.1);
+    let mut ncalls = 0usize;
     loop {
-        let r = dlt_core::stream::read_message(&mut reader, filter.as_ref()).await;
+        // either public entry point (see scen_common::reader_call)
+        let r = if crate::scen_common::via_slice(ncalls, data.len()) {
+            let sh = reader.with_storage_header();
+            match reader.next_message_slice().await {
+                Err(e) => Err(e),
+                Ok(slice) if slice.is_empty() => Ok(None),
+                Ok(slice) => dlt_core::parse::dlt_message(slice, filter.as_ref(), sh).map(|x| Some(x.1)).map_err(|e| e.into()),
+            }
+        } else {
+            dlt_core::stream::read_message(&mut reader, filter.as_ref()).await
+        };
+        ncalls += 1;
         let res = read_res(&r);
         drop(r);
         let failed = core.borrow().failed.is_some();
